@@ -6,6 +6,7 @@ import (
 	"math/rand"
 	"net"
 	"runtime"
+	"sync"
 	"testing"
 	"time"
 
@@ -431,6 +432,11 @@ func init() {
 
 				return
 			}
+			if caseNo%40 == 16 || caseNo%40 == 18 || caseNo%40 == 17 {
+				runC09HostileServer(t, rng, rec, tier, caseNo%40)
+
+				return
+			}
 			if caseNo%4 == 3 {
 				runC09Client(t, rng, rec, tier, caseNo/4)
 
@@ -442,6 +448,126 @@ func init() {
 }
 
 // ---------------------------------------------------------------- client side
+
+// runC09HostileServer: every request of the client is answered by a well-formed but unhelpful
+// response - 438 Stale Nonce with yet another nonce, for ever. Each API call must give up after a
+// bounded number of requests (the client's own retry cap is 3) instead of spinning; the server
+// stops answering after 300 requests so that even an unbounded retry loop ends in this run.
+func runC09HostileServer(t *testing.T, rng *rand.Rand, rec *sim.Rec, tier string, caseNo int) {
+	n := simnet.New()
+	srv, err := sim.NewScriptedServer(n, sim.ServerIP4, 3478)
+	if err != nil {
+		t.Fatal(err)
+	}
+	ts := &turnScript{rng: rand.New(rand.NewSource(rng.Int63())), relay: &net.UDPAddr{IP: sim.RelayIP4, Port: 50000}, nonce: "nonce-0", permW: [5]int{1, 0, 0, 0, 0}, bindW: [5]int{1, 0, 0, 0, 0}}
+	var mu sync.Mutex
+	hostile := map[uint16]bool{}
+	counts := map[uint16]int{}
+	total := 0
+	srv.SetHandler(func(s *sim.ScriptedServer, from *net.UDPAddr, ev sim.SrvEvent) {
+		if ev.Msg == nil || ev.Msg.Class != wire.ClassRequest {
+			return
+		}
+		mu.Lock()
+		h := hostile[ev.Msg.Method]
+		_, hasMI := ev.Msg.Get(wire.AttrMessageIntegrity)
+		if h && hasMI {
+			counts[ev.Msg.Method]++
+			total++
+			c := total
+			mu.Unlock()
+			if c > 300 {
+				return // (lets a spinning client run into its transaction timeout)
+			}
+			s.Send(from, errResp(ev.Msg.Method, ev.Msg.TID, 438, fmt.Sprintf("stale-%d", c)), 0)
+
+			return
+		}
+		mu.Unlock()
+		ts.handler(s, from, ev)
+	})
+	logs := sim.NewLogSink()
+	logs.Budget = 400000
+	rc, err := sim.NewRealClient(n, net.IPv4(10, 1, 0, 1).To4(), 5000, "10.0.0.1:3478", "alice", "pw-a", "verif.test", 100*time.Millisecond, logs, nil)
+	if err != nil {
+		t.Fatal(err)
+	}
+	if err := rc.Client.Listen(); err != nil {
+		t.Fatal(err)
+	}
+	x := &c13{t: t, rng: rng, rec: rec, net: n, srv: srv, rc: rc, ts: ts}
+	defer x.close()
+	set := func(m uint16, on bool) {
+		mu.Lock()
+		hostile[m] = on
+		counts[m] = 0
+		mu.Unlock()
+	}
+	got := func(m uint16) int {
+		mu.Lock()
+		defer mu.Unlock()
+
+		return counts[m]
+	}
+	call := func(what string, m uint16, f func() error) bool {
+		set(m, true)
+		done := make(chan error, 1)
+		go func() { done <- f() }()
+		select {
+		case err := <-done:
+			if err == nil {
+				rec.Violate("client-liveness", "hostile/"+what, "%s returned success although the server answered every request with 438", what)
+			}
+		case <-time.After(5 * time.Minute):
+			rec.Violate("client-blocked", "hostile/"+what, "%s did not return within 5 minutes of virtual time while the server answered every request with 438", what)
+
+			return false
+		}
+		if c := got(m); c > 12 {
+			rec.Violate("client-blocked", "hostile-spin/"+what, "%s sent %d requests in a row while the server kept answering 438 Stale Nonce (the client's retry cap is 3)", what, c)
+
+			return false
+		}
+		rec.FP("client/hostile-438/%s/requests=%d", what, got(m))
+		set(m, false)
+
+		return true
+	}
+	which := caseNo % 3
+	if which == 0 {
+		if !call("Allocate", wire.MethodAllocate, func() error { _, err := rc.Client.Allocate(); return err }) {
+			return
+		}
+	}
+	conn, err := rc.Client.Allocate()
+	if err != nil {
+		rec.Violate("client-liveness", "hostile/allocate-after", "Allocate against a now well-behaved server failed after the hostile phase: %v", err)
+
+		return
+	}
+	x.conn = conn
+	peer := &net.UDPAddr{IP: net.IPv4(10, 2, 0, 1).To4(), Port: 7000}
+	x.peers = []*net.UDPAddr{peer}
+	if which == 1 {
+		if !call("WriteTo/CreatePermission", wire.MethodCreatePermission, func() error { _, err := conn.WriteTo([]byte("to:00000#000000|x"), peer); return err }) {
+			return
+		}
+	}
+	if which == 2 {
+		set(wire.MethodChannelBind, true)
+		_, _ = conn.WriteTo([]byte("to:00000#000000|y"), peer) // the binding is attempted in the background
+		time.Sleep(2 * time.Minute)
+		if c := got(wire.MethodChannelBind); c > 40 {
+			rec.Violate("client-blocked", "hostile-spin/ChannelBind", "%d ChannelBind requests in two minutes while the server kept answering 438", c)
+
+			return
+		}
+		rec.FP("client/hostile-438/ChannelBind/requests=%d", min(got(wire.MethodChannelBind), 9))
+		set(wire.MethodChannelBind, false)
+	}
+	x.liveness("after-hostile-438")
+	rec.SetSample(map[string]any{"kind": "client-vs-server-that-always-answers-438", "phase": which})
+}
 
 // runC09Client hands hostile datagrams to a real client's inbound path, directly through
 // Client.HandleInbound (with a blocked-call detector and the documented classification table as
